@@ -137,6 +137,8 @@ def build(desc, r, fr):
         return getref(r, desc[1])
     if k == "const":
         return desc[1]
+    if k == "missing":
+        return r["no_such_key"]
     if k == "neg":
         return -build(desc[1], r, fr)
     if k == "abs":
@@ -180,6 +182,8 @@ def ev(desc, d, g):
         return getval(d, desc[1])
     if k == "const":
         return desc[1]
+    if k == "missing":
+        raise KeyError("no_such_key")
     if k == "neg":
         return -ev(desc[1], d, g)
     if k == "abs":
@@ -280,6 +284,8 @@ def show(desc):
         return desc[1]
     if k == "const":
         return str(desc[1])
+    if k == "missing":
+        return "d['no_such_key']"
     if k in ("neg", "abs", "floor", "ceil", "trunc", "inv", "pos"):
         return f"{k}({show(desc[1])})"
     if k == "round2":
@@ -321,6 +327,39 @@ def false_cycle_tasks(mgr):
     ids = [str(t.taskid) for t in tasks]
     tg = {str(t.taskid): {str(x) for x in t.targets} for t in tasks}
     dp = {str(t.taskid): {str(x) for x in (t.dependencies or ())} for t in tasks}
+    edges = {a: {b for b in ids if b != a and tg[a] & dp[b]} for a in ids}
+    reach = {a: set(edges[a]) for a in ids}
+    changed = True
+    while changed:
+        changed = False
+        for a in ids:
+            new = set()
+            for b in reach[a]:
+                new |= reach[b]
+            if not new <= reach[a]:
+                reach[a] |= new
+                changed = True
+    return sorted(a for a in ids if a in reach[a])
+
+
+def false_cycle_locs(defs):
+    """Signature of the open C01 finding, computed from the HARNESS' descriptors of the current definitions
+    (not from the task objects, whose recorded attributes a defect may have left stale): a task defining
+    location L targets L and every container enclosing it below the root (owner chain) and depends on every
+    location its descriptor reads and on their enclosing containers; A -> B iff targets(A) & deps(B).  The
+    data flow of every explored universe is acyclic, so a cycle of >= 2 tasks of this graph exists only
+    through the container-level overlap.  Returns the defined locations lying on such a cycle."""
+    def owners(L):
+        c = container_of(L)
+        return {c} if c in ("n", "l") else set()
+    tg, dp = {}, {}
+    for L, dsc in defs.items():
+        tg[L] = {L} | owners(L)
+        rd = set(reads(dsc))
+        dp[L] = set(rd)
+        for p in rd:
+            dp[L] |= owners(p)
+    ids = list(defs)
     edges = {a: {b for b in ids if b != a and tg[a] & dp[b]} for a in ids}
     reach = {a: set(edges[a]) for a in ids}
     changed = True
